@@ -8,7 +8,11 @@
 //!
 //! Cells with a mechanism model (M+S, evaluated in Coq against the real code): MemoryBlobStore
 //! histories, ZipOffsetBlobStore builder + file image (uncompressed configurations), MixedLenBlobStore,
-//! SimpleZipBlobStore, ZeroLengthBlobStore.  Everything else is S-only (oracle).
+//! SimpleZipBlobStore, ZeroLengthBlobStore, PlainBlobStore (with close + reopen and the directory listing),
+//! the wrapper stores (Zstd, Huffman framing, Rans/Dictionary) and CachedBlobStore over any modelled inner
+//! store, stacks of them, DictZipBlobStore's bookkeeping (`XHist` / `XPlain` / `XPlainOpen` cases: the whole
+//! history on the whole stack; opaque codecs enter as the table of (input, output) pairs seen between two
+//! layers).  Everything else is S-only (oracle).
 use crate::util::*;
 use serde_json::{json, Value};
 use std::collections::{HashMap, HashSet};
